@@ -24,7 +24,7 @@ import (
 	"github.com/google/pprof/verif/internal/sess"
 )
 
-var oddStrings = []string{"", "a", "cpu/wall", "../up", strings.Repeat("L", 3000), "\xff\xfe", `q"r\`, "new\nline", "<b>&amp;", "(", "[", "*", "a.b(c)", "ünï", "%s%d", "\x00", " ", "::", "f\tg", "{{.}}", "</script>"}
+var oddStrings = []string{"", "a", "cpu/wall", "../up", "/proc/self/cwd", "/proc/self/cwd/.", "/", ".", strings.Repeat("L", 3000), "\xff\xfe", `q"r\`, "new\nline", "<b>&amp;", "(", "[", "*", "a.b(c)", "ünï", "%s%d", "\x00", " ", "::", "f\tg", "{{.}}", "</script>"}
 
 // OddProfile generates a structurally valid profile with odd content.
 func OddProfile(r *rand.Rand) *profile.Profile {
